@@ -288,6 +288,9 @@ pub fn emit_case(out: &mut dyn Write, group: &str, c: &Case, verbose: bool) -> s
             // at most once per element that reaches the stage: compare with the full evaluation
             let full = multiset(seq_eval(&c.input, &c.ops, &mut |y, log| { log.push((ST_PRED, y)); true }).into_iter());
             for (k, n) in &got {
+                if c.src_kind == 'e' {
+                    break; // the unbounded source repeats its data: the same argument may legitimately recur
+                }
                 if full.get(k).copied().unwrap_or(0) < *n {
                     fails.push(format!("C05:closure-called-more-often-than-sequentially(stage {} arg {})", k.0, k.1));
                     break;
@@ -370,7 +373,7 @@ pub fn emit_case(out: &mut dyn Write, group: &str, c: &Case, verbose: bool) -> s
     }
 
     // ---- exact chunks (C11)
-    let obs = if panicked { None } else { observed_assignment(c, &r, &phase_source(c)) };
+    let obs = if panicked || c.src_kind == 'e' { None } else { observed_assignment(c, &r, &phase_source(c)) };
     if let (ChunkSize::Exact(cz), false) = (fp.chunk_size, later_sets && c.has_eager()) {
         let cz = cz.get();
         if let Some(run) = r.rec.runs.last() {
@@ -409,6 +412,33 @@ pub fn emit_case(out: &mut dyn Write, group: &str, c: &Case, verbose: bool) -> s
                     break;
                 }
                 i = j + 1;
+            }
+        }
+    }
+
+    // ---- bounded work after a match is known (C10), controlled runs only: the matching
+    // evaluation and the skip_to_end that follows happen inside one granted step, so every
+    // evaluation logged after it must come out of a chunk that was already held
+    if let (Mode::Ctl(_), true, false) = (&c.mode, c.term.is_find_family(), panicked) {
+        let negate = matches!(c.term, TermD::All(_));
+        let pd = match &c.term {
+            TermD::Find(p) | TermD::Any(p) | TermD::All(p) | TermD::FindIdx(p) => Some(*p),
+            _ => None,
+        };
+        if let (Some(pd), Some(stage), Some(run)) = (pd, c.trace_stage(), r.rec.runs.last()) {
+            let last_run = r.rec.runs.len() as u32;
+            let pub_seq = r.rec.events.iter().filter(|e| e.stage == ST_PRED && e.run == last_run && (pd.test(e.arg) != negate)).map(|e| e.seq).min();
+            if let Some(ps) = pub_seq {
+                let mut after: HashMap<u32, usize> = HashMap::new();
+                for e in r.rec.events.iter().filter(|e| e.stage == stage && e.run == last_run && e.seq > ps) {
+                    *after.entry(e.actor).or_insert(0) += 1;
+                }
+                for (a, n) in after {
+                    let cw = run.worker_chunks.get((a as usize).wrapping_sub(1)).copied().unwrap_or(1);
+                    if n > cw {
+                        fails.push(format!("C10:worker-{}-evaluated-{}-elements-after-the-match-was-published(chunk {})", a, n, cw));
+                    }
+                }
             }
         }
     }
@@ -469,7 +499,7 @@ pub fn emit_case(out: &mut dyn Write, group: &str, c: &Case, verbose: bool) -> s
     let calls = c.calls();
     let query = format!(
         "run src={}:{} calls={} term={} cs={} asg={}",
-        match c.src_kind { 'V' => 'v', 'K' => 'k', 'U' => 'u', k => k },
+        match c.src_kind { 'V' => 'v', 'K' => 'k', 'U' | 'e' => 'u', k => k },
         if c.input.is_empty() { "-".to_string() } else { c.input.iter().map(|x| x.to_string()).collect::<Vec<_>>().join(",") },
         if calls.is_empty() { "-".to_string() } else { calls.join(";") },
         c.term.enc(),
@@ -1028,6 +1058,48 @@ pub fn run(out: &mut dyn Write, prop: &str, seed: u64, thorough: bool) -> std::i
                     emit_case(out, "sites", &c, false)?;
                     total_c.set(total_c.get() + 1);
                 }
+            }
+        }
+        "C10" => {
+            let mut t = vec![TermD::First];
+            for _ in 0..10 {
+                let p = gen_pred(&mut rng);
+                t.extend([TermD::Find(p), TermD::Any(p), TermD::All(p), TermD::FindIdx(p)]);
+            }
+            let mut o = base(t.clone());
+            o.ctl_share = 8;
+            o.allow_eager = false;
+            for i in 0..n(2000, 25000) {
+                let mut c = gen_case(&mut rng, &o);
+                // a third: sequential mode (lazy prefix); a sixth: unbounded sources
+                if i % 3 == 0 {
+                    for s in c.sets.iter_mut() {
+                        s.retain(|x| !matches!(x, SetD::NtUsize(_) | SetD::NtEnum(_)));
+                    }
+                    c.sets[0].push(SetD::NtUsize(1));
+                    c.mode = Mode::Free(0);
+                } else if i % 6 == 1 && !c.input.is_empty() && !c.term.needs_concrete() {
+                    // unbounded source: the input repeats for ever; only cases with a match
+                    let ex = expect(&c);
+                    let has_match = match (&c.term, &ex.out) {
+                        (TermD::All(_), Outcome::Bool(b)) => !*b,
+                        (_, Outcome::Bool(b)) => *b,
+                        (_, Outcome::Opt(o)) => o.is_some(),
+                        _ => false,
+                    };
+                    if !has_match {
+                        continue;
+                    }
+                    c.src_kind = 'e';
+                    // chunk sizes far beyond the match would only allocate (known finding C15)
+                    for s in c.sets.iter_mut() {
+                        s.retain(|x| !matches!(x, SetD::CsEnum(ChunkSize::Exact(z)) | SetD::CsEnum(ChunkSize::Min(z)) if z.get() > 5000));
+                    }
+                }
+                writeln!(out, "BEGIN\t{}", c.enc())?;
+                out.flush()?;
+                emit_case(out, "short-circuit", &c, false)?;
+                total_c.set(total_c.get() + 1);
             }
         }
         "C13" | "C14" => {
